@@ -13,6 +13,8 @@
      parse(s)   the object parsed from the caller's bytearray equals the one parsed from an
                 immutable copy of the same bytes
      bufmutate  no object changes
+     newfrom(s) construct from containers the caller keeps (lists for vector fields): no other object changes
+     argmutate  the caller edits those containers afterwards: no object changes
      resmutate  the caller edits the value the last observer returned: no object changes *)
 EXTENDS Naturals, Sequences, Json, IOUtils, TLC, TLCExt
 
@@ -54,6 +56,14 @@ Step == /\ T[l].ev = "step"
                   /\ Report(e.dg[s] = e.parsed, <<"BAD", "parsed-object-differs", l, e.obs>>)
                   /\ Report(\A t \in Others(s) : e.dg[t] = exp[t], <<"BAD", "parse-changed-another-object", l, e.obs>>)
                   /\ memo' = [memo EXCEPT ![s] = NoMemo[s]]
+                  /\ exp' = [t \in Slots |-> e.dg[t]]
+             [] name = "newfrom" ->
+                  /\ Report(\A t \in Others(s) : e.dg[t] = exp[t], <<"BAD", "construction-changed-another-object", l, e.obs>>)
+                  /\ memo' = [memo EXCEPT ![s] = NoMemo[s]]
+                  /\ exp' = [t \in Slots |-> e.dg[t]]
+             [] name = "argmutate" ->
+                  /\ Report(\A t \in Slots : e.dg[t] = exp[t], <<"BAD", "object-aliases-constructor-argument", l, e.obs>>)
+                  /\ memo' = memo
                   /\ exp' = [t \in Slots |-> e.dg[t]]
              [] name = "resmutate" ->
                   /\ Report(\A t \in Slots : e.dg[t] = exp[t], <<"BAD", "observer-result-aliases-the-object", l, e.obs>>)
